@@ -33,6 +33,17 @@ def shapes(n, kind):
     return out
 
 
+def recycled(kind):
+    """the same machine on a RECYCLED KSI_HighAvailabilityRequest wrapper that was released in an arbitrary state
+    (ctx->haRequestRecycle active): all endpoints fail / one answers"""
+    out = []
+    for val, rd in (((0, 0), (0, 0)), ((0, 0), (1, 0)), ((0, 1), (0, 1))):
+        pad = lambda t: ",".join(map(str, list(t) + [0]))
+        out.append({"label": "recycled_n2_a11_v%s_r%s" % ("".join(map(str, val)), "".join(map(str, rd))),
+                    "defines": ["NSUB=2", "KIND=%d" % kind, "ACCEPT={1,1,0}", "VALID={%s}" % pad(val), "ROUND={%s}" % pad(rd), "RECYCLE_STALE=1"]})
+    return out
+
+
 def machine(name, kind, functions, what):
     return {
         "name": name, "src": "h1_request.c", "env": ["ctx", "list_wrap", "fmt_stub"], "tus": [], "unwind": 6, "timeout": 600, "max_replays": 8,
@@ -42,8 +53,8 @@ def machine(name, kind, functions, what):
         "functions": functions,
         "bound": what + " forwarded to n endpoints; scenario shape concrete per instance and enumerated exhaustively by the driver: which endpoints accept, which replies are valid, the round in which each copy returns "
                  "(rounds x endpoint order realise every arrival order); quick n = 1, 2 (28 shapes), thorough n = 1..3 (371 shapes); external error codes symbolic, error codes three fixed different values",
-        "instances": shapes(1, kind) + shapes(2, kind),
-        "thorough": {"instances": shapes(1, kind) + shapes(2, kind) + shapes(3, kind), "timeout": 1200},
+        "instances": shapes(1, kind) + shapes(2, kind) + recycled(kind),
+        "thorough": {"instances": shapes(1, kind) + shapes(2, kind) + shapes(3, kind) + recycled(kind), "timeout": 1200},
     }
 
 
@@ -57,6 +68,13 @@ hs = [
             ["KSI_HighAvailabilityService_addRequest", "KSI_HighAvailabilityService_run", "KSI_HighAvailabilityService_setOption", "responseHandler", "handleConfigResponse", "handleErrorResponse",
              "KSI_HighAvailabilityService_reportErrorNotice", "KSI_AsyncHandle_getConfig"],
             "one configuration request (consolidation and announcement through callback stubs)"),
+    {
+        "name": "h4_recycle", "src": "h4_recycle.c", "env": ["ctx", "list_wrap", "fmt_stub"], "tus": [], "unwind": 6, "timeout": 300,
+        "unwindset": ["KSI_AsyncHandle_free:4", "KSI_HighAvailabilityRequest_free:4", "KSI_AsyncHandle_cleanup:4"],
+        "functions": ["KSI_HighAvailabilityRequest_new", "KSI_HighAvailabilityRequest_free"],
+        "bound": "one KSI_HighAvailabilityRequest released through KSI_HighAvailabilityRequest_free with ARBITRARY expected-reply count and flags (with / without a user handle, concrete per instance) into ctx->haRequestRecycle, then re-constructed",
+        "instances": [{"label": "with_handle", "defines": ["OLD_HAS_HANDLE=1"]}, {"label": "no_handle", "defines": ["OLD_HAS_HANDLE=0"]}],
+    },
     {
         "name": "h3_consolidate", "src": "h3_consolidate.c", "env": ["ctx", "list_wrap", "fmt_stub"], "tus": ["types"], "unwind": 4, "timeout": 300, "max_replays": 12, "object_bits": 12,
         "functions": ["KSI_AbstractHighAvailabilityService_new", "KSI_HighAvailabilityService_consolidateConfig", "KSI_Config_consolidateMaxLevel", "KSI_Config_consolidateAggrAlgo", "KSI_Config_consolidateAggrPeriod",
@@ -99,4 +117,4 @@ plan = {
  "harnesses": hs
 }
 json.dump(plan, open(os.path.join(os.path.dirname(os.path.abspath(__file__)), "plan.json"), "w"), indent=1)
-print([(h["name"], len(h["instances"]), len(h["thorough"]["instances"])) for h in hs])
+print([(h["name"], len(h["instances"]), len(h.get("thorough", {}).get("instances", []))) for h in hs])
